@@ -15,7 +15,9 @@
 //	            (h ID (k v)*)               *types.Hash
 //	            (o ID xTYPE xDISP (xATTR v)*)   instance of an object type of the catalogue (Verif::Pair/Box/Unit); the
 //	                                        attributes are the entries of its init hash, in order
-//	            (tdef ID xTEXT xDISP)       an object type definition that no loader knows (implementation only)
+//	            (tdef ID xTEXT xDISP init)  an object type definition that no loader knows; init = its init hash as a value
+//	                                        (what the model serializes: an instance of Pcore::ObjectType)
+//	            (tdefx ID xTEXT xDISP)      the same when the init hash cannot be written in this syntax (implementation only)
 //	            (= ID)
 //	          leaf kind td = a named type the loader knows (alias Verif::Ints, object types of the catalogue)
 //	    Out:  <event tree> | <deserialized value, ids renumbered by first occurrence>     (or `| err`)
@@ -65,6 +67,7 @@ type node struct {
 	lk   string // l: leaf kind
 	kids []*node // sn: 1; a: elements; h: k v k v …; o: attribute values
 	names []string // o: attribute names
+	init  *node    // tdef: the type's init hash as a value tree (what the model serializes), nil = not expressible
 }
 
 type badOp struct{ msg string }
@@ -199,9 +202,19 @@ func parse(e sx.Sexp, defined map[int64]*node, open map[int64]bool) *node {
 		delete(open, n.id)
 		defined[n.id] = n
 		return n
-	case "tdef":
-		need(3)
+	case "tdef", "tdefx":
+		// tdef carries the init hash for the model; tdefx (implementation only) does not
+		if (tag == "tdef" && len(a) != 4) || (tag == "tdefx" && len(a) != 3) {
+			bad("arity of %s", e)
+		}
 		n := &node{kind: "tdef", id: id(), s: str(a[1]), disp: str(a[2])}
+		if len(a) == 4 {
+			// the init hash of the type, for the model; it gets its own identities (never shared with the rest)
+			n.init = parse(a[3], map[int64]*node{}, map[int64]bool{})
+			if n.init.kind != "h" {
+				bad("init hash of a type definition")
+			}
+		}
 		defined[n.id] = n
 		return n
 	case "=":
@@ -581,7 +594,7 @@ func classify(n *node, f *facts, seen map[*node]bool, strs map[string]int) {
 			f.shared = true
 		}
 	}
-	if n.kind == "tdef" {
+	if n.kind == "tdef" && n.init == nil {
 		f.implOnly = true
 	}
 	if n.kind == "o" || n.kind == "tdef" {
@@ -639,8 +652,10 @@ func classify(n *node, f *facts, seen map[*node]bool, strs map[string]int) {
 // ---- result printing ----------------------------------------------------------------------------------------
 
 type printer struct {
-	ids map[interface{}]int
-	sb  strings.Builder
+	ids   map[interface{}]int
+	sb    strings.Builder
+	fresh func(px.ObjectType) bool // is this object type unknown to the loaders the op started with?
+	anon  bool
 }
 
 func (p *printer) ident(v px.Value) (int, bool) {
@@ -655,6 +670,11 @@ func (p *printer) ident(v px.Value) (int, bool) {
 func (p *printer) print(v px.Value) {
 	w := func(s string) { p.sb.WriteString(s) }
 	labelled := func(tag string) bool {
+		if p.anon {
+			// inside a type definition nothing is printed with an identity (the init hash is rebuilt on every call)
+			w("(" + tag + " -")
+			return true
+		}
 		n, seen := p.ident(v)
 		if seen {
 			w("(= " + strconv.Itoa(n) + ")")
@@ -664,7 +684,7 @@ func (p *printer) print(v px.Value) {
 		return true
 	}
 	leaf := func(kind string, ident bool, enc string) {
-		if ident {
+		if ident && !p.anon {
 			if labelled("l") {
 				w(" " + kind + " " + sx.Str(enc).Atom + ")")
 			}
@@ -718,6 +738,16 @@ func (p *printer) print(v px.Value) {
 	case *types.UriValue:
 		leaf("uri", true, encOf(t))
 	case px.Type:
+		if ot, ok := t.(px.ObjectType); ok && p.fresh != nil && p.fresh(ot) {
+			// an object type no loader knew before this op: it travelled as a Pcore::ObjectType instance
+			w("(o - " + sx.Str("Pcore::ObjectType").Atom)
+			was := p.anon
+			p.anon = true
+			ot.(px.PuppetObject).InitHash().EachPair(func(k, e px.Value) { w(" (" + sx.Str(k.String()).Atom + " "); p.print(e); w(")") })
+			p.anon = was
+			w(")")
+			return
+		}
 		leaf("ty", false, t.String())
 	case px.PuppetObject:
 		if labelled("o") {
@@ -889,10 +919,77 @@ func exec(c px.Context, op string, args []sx.Sexp) (res core.Result) {
 		return core.Result{Out: "bad-op", Pred: "FAIL harness-bad-op " + op}
 	}
 	ensureCatalogue(c)
+	parentCtx = c
 	// a fresh defining loader per op: type definitions that arrive in a stream are registered there and nowhere else
 	quiet := pcore.WithParent(context.Background(), px.NewParentedLoader(c.Loader()), nullLogger{}, c.ImplementationRegistry())
 	px.DoWithContext(quiet, func(ctx px.Context) { res = ser(ctx, parseOpts(args[0]), parseCaps(args[1]), args[2]) })
 	return res
+}
+
+// freshType: an object type is fresh when the worker's own loader (the parent of the per-op loader) cannot load it
+func freshType(parent px.Context) func(px.ObjectType) bool {
+	return func(t px.ObjectType) bool {
+		if t.Name() == "" {
+			return true
+		}
+		_, ok := px.Load(parent, px.NewTypedName(px.NsType, t.Name()))
+		return !ok
+	}
+}
+
+var parentCtx px.Context
+
+// valueNode renders a px.Value (the init hash of a type definition) as a value tree; ok=false when it holds something
+// the op syntax cannot say
+func valueNode(v px.Value, next *int64, fresh func(px.ObjectType) bool) (n *node, ok bool) {
+	id := func() int64 { *next++; return *next }
+	switch t := v.(type) {
+	case *types.UndefValue:
+		return &node{kind: "u"}, true
+	case *types.DefaultValue:
+		return &node{kind: "df"}, true
+	case px.Boolean:
+		return &node{kind: "b", b: t.Bool()}, true
+	case px.Integer:
+		return &node{kind: "i", i: t.Int()}, true
+	case px.Float:
+		return &node{kind: "f", f: math.Float64bits(t.Float())}, true
+	case px.StringValue:
+		return &node{kind: "s", s: t.String()}, true
+	case *types.Array:
+		n = &node{kind: "a", id: id()}
+		ok = true
+		t.Each(func(e px.Value) {
+			k, o := valueNode(e, next, fresh)
+			ok = ok && o
+			n.kids = append(n.kids, k)
+		})
+		return n, ok
+	case *types.Hash:
+		n = &node{kind: "h", id: id()}
+		ok = true
+		t.EachPair(func(k, e px.Value) {
+			kn, o1 := valueNode(k, next, fresh)
+			en, o2 := valueNode(e, next, fresh)
+			ok = ok && o1 && o2
+			n.kids = append(n.kids, kn, en)
+		})
+		return n, ok
+	case px.Type:
+		if ot, isObj := t.(px.ObjectType); isObj && fresh(ot) {
+			return nil, false // a nested fresh definition: not expressed
+		}
+		if _, isAlias := t.(*types.TypeAliasType); isAlias {
+			return &node{kind: "l", id: id(), lk: "td", s: t.String(), disp: t.String()}, true
+		}
+		if _, isObj := t.(px.ObjectType); isObj {
+			return &node{kind: "l", id: id(), lk: "td", s: t.String(), disp: t.String()}, true
+		}
+		if ss, isS := t.(px.SerializeAsString); isS && ss.CanSerializeAsString() {
+			return &node{kind: "l", id: id(), lk: "ty", s: t.String(), disp: t.String()}, true
+		}
+	}
+	return nil, false
 }
 
 func ser(c px.Context, o opts, cp caps, vs sx.Sexp) core.Result {
@@ -930,6 +1027,20 @@ func ser(c px.Context, o opts, cp caps, vs sx.Sexp) core.Result {
 	}
 	// the abstract payloads the model works with must be what the real codecs print
 	for n, lv := range bld.memo {
+		if n.kind == "tdef" && n.init != nil {
+			// the init hash written in the op (what the model serializes) must be the type's own
+			var sb1, sb2 strings.Builder
+			n.init.write(&sb1, map[*node]bool{})
+			next := int64(1000)
+			if ot, ok := lv.(px.ObjectType); ok {
+				if mine, ok := valueNode(ot.(px.PuppetObject).InitHash(), &next, freshType(parentCtx)); ok {
+					mine.write(&sb2, map[*node]bool{})
+				}
+			}
+			if sb1.String() != sb2.String() {
+				bad("init hash of the type definition differs: %s / %s", sb1.String(), sb2.String())
+			}
+		}
 		if n.kind == "o" {
 			if d := lv.String(); d != n.disp {
 				return fail("leaf-codec", "leaf-codec", fmt.Sprintf("object prints %q (expected %q)", d, n.disp))
@@ -999,7 +1110,7 @@ func ser(c px.Context, o opts, cp caps, vs sx.Sexp) core.Result {
 		if derr != nil {
 			out += "err"
 		} else {
-			p := &printer{ids: map[interface{}]int{}}
+			p := &printer{ids: map[interface{}]int{}, fresh: freshType(parentCtx)}
 			if err := safely(func() { p.print(back) }); err != nil {
 				out += "err"
 				derr = err
